@@ -169,7 +169,7 @@ def instances(tier):
         t = 60 if q else 700
         out.append(dict(id="fp-lemma-%s" % dt, family="fp", dtype=dt, timeout_s=t, budget=dict(wall_s=t + 30, max_paths=4)))
         # the same lemma for larger |x| (an absolute tolerance on x cannot be met once ulp(x) >= tol)
-        for lo, hi in ((4.0, 8.0), (64.0, 128.0)):
+        for lo, hi in ((4.0, 8.0), (64.0, 128.0), (-2.0, -0.5), (-8.0, -4.0), (-128.0, -64.0)):
             out.append(dict(id="fp-lemma-%s-x%g-%g" % (dt, lo, hi), family="fp", dtype=dt, timeout_s=t, xlo=lo, xhi=hi, budget=dict(wall_s=t + 30, max_paths=4)))
     out.sort(key=_cost, reverse=True)      # the pool starts instances in list order: expensive ones first
     return out
@@ -605,7 +605,10 @@ def _fp_query(dtype, timeout_s, xlo=0.5, xhi=2.0):
     sv, dv = z3.FP("s", F), z3.FP("d", F)
     x0, x1 = z3.FP("x0", F), z3.FP("x1", F)
     bx = z3.fpToIEEEBV(x0)
-    adjacent = z3.fpToIEEEBV(x1) == bx + 1      # next float up: both are positive normal numbers in (0.5, 2)
+    if xlo >= 0:
+        adjacent = z3.fpToIEEEBV(x1) == bx + 1      # next float up: both are positive normal numbers in (xlo, xhi)
+    else:
+        adjacent = bx == z3.fpToIEEEBV(x1) + 1      # negative normal numbers: the next float up has the smaller bit pattern
     tol = z3.FPVal(float(np.finfo(npdt).eps) * 4, F)
     r0 = z3.fpSub(rm, z3.fpMul(rm, sv, x0), dv)
     r1 = z3.fpSub(rm, z3.fpMul(rm, sv, x1), dv)
@@ -650,8 +653,16 @@ def _fp_real_code(dt, s, d, x0, xlo=0.5, xhi=2.0):
         warnings.simplefilter("ignore")
         xa, oka = opt.brentsroot(f, [x0, x1])
         xb, okb = opt.brentsroot(f, [dt(xlo), dt(xhi)])
-    out.update(narrow=dict(x=float(xa), success=bool(oka)), wide=dict(x=float(xb), success=bool(okb)))
-    out["defect"] = (not bool(oka)) and (not bool(okb)) and float(xb) in (float(x0), float(x1))
+        # the vector solver (the one event detection uses) on the same two brackets
+        xva, okva = opt.brentsrootvec([f], [np.asarray(x0), np.asarray(x1)])
+        xvb, okvb = opt.brentsrootvec([f], [np.asarray(dt(xlo)), np.asarray(dt(xhi))])
+    xva, okva, xvb, okvb = np.ravel(xva)[0], np.ravel(okva)[0], np.ravel(xvb)[0], np.ravel(okvb)[0]
+    out.update(narrow=dict(x=float(xa), success=bool(oka)), wide=dict(x=float(xb), success=bool(okb)),
+               vec_narrow=dict(x=float(xva), success=bool(okva)), vec_wide=dict(x=float(xvb), success=bool(okvb)))
+    scalar_defect = (not bool(oka)) and (not bool(okb)) and float(xb) in (float(x0), float(x1))
+    vector_defect = (not bool(okva)) and (not bool(okvb)) and float(xvb) in (float(x0), float(x1))
+    out["defect"] = bool(scalar_defect or vector_defect)
+    out["defect_in"] = [n for n, v in (("brentsroot", scalar_defect), ("brentsrootvec", vector_defect)) if v]
     return out
 
 
